@@ -107,6 +107,17 @@ CHECKS.update({
 CHECKS["C17"]["text"] += " Executor-message framing (Syn/Ack/payload frames) is covered by the frame-sequences harness shared with C06."
 CHECKS["C17"]["technique"] += "; framing: solver-driven enumeration of frame lists through the real Listener._recv_one"
 
+CHECKS.update({
+ "C05": dict(category="other", design_ref="DESIGN.md §4 C05",
+  technique="symbolic execution / solver-driven enumeration (CrossHair/z3) of the Python-level failure chain: healthcheck, executor loop, execute_sequence, Bridge.recv_events, controller run under an injected failure",
+  text="Partial claim - only what a solver can reach. (a) Executor.healthcheck with symbolic integer exit codes (or None) for two workers, shm server and data server raises exactly when some child exited non-zero. (b) Executor.recv_loop stepped with a message palette and a dead child: every failure yields exactly one ExecutorFailure to the controller, sets terminating, tells live children to stop, and terminate is idempotent; ExecutorShutdown yields exactly one ExecutorExit. (c) execute_sequence with a body raising at a solver-chosen index (RuntimeError / SystemExit): TaskFailure names the task, outputs of earlier tasks only are published. (d) Bridge.recv_events on batches of <=2 (thorough 3) messages from all 15 message classes: returns only events, and raises after calling shutdown exactly when a failure/unsupported message is present. (e) the real controller run on the simulated cluster with recv_events failing at a solver-chosen call: run propagates, shutdown is called, no delivered value differs from the sequential one.",
+  note="NOT covered (needs fault injection on live processes, a different technique family): kill -9 at a chosen point, leftover child processes or /dev/shm segments after exit, signal/atexit behaviour, bounded wall-clock time. Children are inert objects with chosen exit codes; shm client shutdown is a recorder."),
+ "C07": dict(category="other", design_ref="DESIGN.md §4 C07",
+  technique="solver-driven exhaustive exploration (CrossHair/z3 decision tree) of command lists, per-frame fault patterns, pool-job completion order and clock through two real DataServer objects",
+  text="Two real DataServer objects (recv_loop stepped; thread pool replaced by deferred jobs; per-host fake shm store) plus a controller-side Listener/ReliableSender. Command lists of 1-2 (thorough 3) from transmit / redundant transmit / fetch / purge at the target / purge at the source after arrival; the first F transmissions of payload, acknowledgement and command frames are each delivered / dropped / duplicated / delayed by solver decision; S solver-chosen steps (server iteration, controller iteration, run a pending job, clock jump beyond the 4 s resend grace, issue next command) and then a fair tail. Assert: the target holds exactly one copy with the source's bytes and deser_fun and announced it exactly once; redundant transfers add no announcement; every fetch delivers the same bytes to the controller exactly once; after a purge at the target the dataset is absent even if payloads arrive later; no data server crashes, no job is left running, no transfer failure is reported. Decision trees exhausted in the quick tier.",
+  note="Trusted: z3/CrossHair, pickle, fakezmq contract. A pool job runs atomically. The controller purges a source only after the target announced arrival (C04). Outside: >2 hosts, payload splitting, real thread timing."),
+})
+
 NA_REASON = "check not built yet in this round (planned, see DESIGN.md §4); not claimed until its harness exists and passes on the unchanged tree"
 
 def main():
